@@ -5332,7 +5332,7 @@ int32_t psX509GetDNAttributes(psPool_t *pool, const unsigned char **pp,
     psSize_t len, x509DNattributes_t *attribs, uint32_t flags)
 {
     const unsigned char *p = *pp;
-    const unsigned char *dnEnd, *dnStart, *moreInSetPtr;
+    const unsigned char *dnEnd, *dnStart, *moreInSetPtr, *atvEnd;
     x509OrgUnit_t *orgUnit;
     x509DomainComponent_t *domainComponent;
     int32 id, stringType, checkHiddenNull, moreInSet;
@@ -5388,11 +5388,14 @@ int32_t psX509GetDNAttributes(psPool_t *pool, const unsigned char **pp,
             that with the "moreInSet" logic */
 MORE_IN_SET:
         moreInSetPtr = p;
-        if (getAsnSequence(&p, (uint32) (dnEnd - p), &llen) < 0)
+        if (getAsnSequence(&p, (uint32) (dnEnd - p), &llen) < 0 ||
+            (uint32) (dnEnd - p) < llen)
         {
             psTraceCrypto("Malformed DN attributes 2\n");
             return PS_PARSE_FAIL;
         }
+        /* The attribute (type and value) ends here, whatever the value is */
+        atvEnd = p + llen;
         if (moreInSet > 0)
         {
             moreInSet -= llen + (int32) (p - moreInSetPtr);
@@ -5492,22 +5495,12 @@ MORE_IN_SET:
             /* OIDs we are not parsing */
             p = *pp;
 /*
-            Move past the OID and string type, get data size, and skip it.
+            Skip the attribute.  Its value is opaque here (the identifier
+            may be longer than one octet), so resume where the enclosing
+            AttributeTypeAndValue ends and never inside the value.
             NOTE: Have had problems parsing older certs in this area.
  */
-            if ((uint32) (dnEnd - p) < arcLen + 1)
-            {
-                psTraceCrypto("Malformed DN attributes 5\n");
-                return PS_LIMIT_FAIL;
-            }
-            p += arcLen + 1;
-            if (getAsnLength(&p, (uint32) (dnEnd - p), &llen) < 0 ||
-                (uint32) (dnEnd - p) < llen)
-            {
-                psTraceCrypto("Malformed DN attributes 6\n");
-                return PS_PARSE_FAIL;
-            }
-            p = p + llen;
+            p = atvEnd;
             continue;
         }
         /* Next are the id of the attribute type and the ASN string type */
@@ -5621,6 +5614,13 @@ oid_parsing_done:
         default:
             psTraceIntCrypto("Unsupported DN attrib type %d\n", stringType);
             return PS_UNSUPPORTED_FAIL;
+        }
+
+        if (p != atvEnd)
+        {
+            psFree(stringOut, pool);
+            psTraceCrypto("Malformed DN attributes 10\n");
+            return PS_PARSE_FAIL;
         }
 
         psBool_t attributeStored = PS_TRUE;
